@@ -1,5 +1,5 @@
 INIT Init
 NEXT Next
 CONSTANTS
-  KeyIsAddress = FALSE
+  KeyMode = "unique"
   MaxOps = 0
